@@ -72,6 +72,9 @@ func loadSpec(vd, prop string) (*Spec, error) {
 	if s.ModuleDir == "" {
 		s.ModuleDir = "/repo"
 	}
+	if r := repoDir(); r != "/repo" && strings.HasPrefix(s.ModuleDir, "/repo") {
+		s.ModuleDir = r + strings.TrimPrefix(s.ModuleDir, "/repo")
+	}
 	return &s, nil
 }
 
@@ -94,6 +97,7 @@ func cmdCheck(args []string) int {
 	solver := fs.String("solver", "", "solver binary (default z3-new, else z3)")
 	qto := fs.Int("qtimeout", 60000, "per-query timeout ms")
 	noReplay := fs.Bool("no-replay", false, "skip native replay (debug)")
+	noEvidence := fs.Bool("no-evidence", false, "do not write evidence/ or replay/ under the verif dir (trial runs on scratch worktrees)")
 	verbose := fs.Bool("v", false, "verbose")
 	var prop string
 	if len(args) > 0 && !strings.HasPrefix(args[0], "-") {
@@ -235,6 +239,10 @@ func cmdCheck(args []string) int {
 		json.Unmarshal(data, &known)
 	}
 	replayDir := filepath.Join(vd, "replay", spec.Property)
+	if *noEvidence {
+		replayDir, _ = os.MkdirTemp("", "verif-trial-replay-")
+		defer os.RemoveAll(replayDir)
+	}
 	os.RemoveAll(replayDir)
 	nviol, nknown, ninconcl := 0, 0, 0
 	var confirmed []string
@@ -277,7 +285,9 @@ func cmdCheck(args []string) int {
 
 	// evidence
 	ev := buildEvidence(spec, *tier, seed, results, ws, stats, loadT, exploreT, time.Since(t0), nviol, nknown, ninconcl, confirmed, inconclusive)
-	if err := writeJSON(filepath.Join(vd, "evidence", spec.Property+".json"), ev); err != nil {
+	if *noEvidence {
+		// trial run: nothing is written
+	} else if err := writeJSON(filepath.Join(vd, "evidence", spec.Property+".json"), ev); err != nil {
 		fmt.Fprintf(os.Stderr, "ERROR: writing evidence: %v\n", err)
 		return 2
 	}
@@ -389,9 +399,9 @@ func (e *Engine) buildReplayBinary(tmp, pkg string) (string, string, error) {
 	var pkgDir string
 	switch {
 	case strings.HasPrefix(pkg, "golang.org/x/telemetry/godev"):
-		pkgDir = filepath.Join("/repo/godev", strings.TrimPrefix(pkg, "golang.org/x/telemetry/godev"))
+		pkgDir = filepath.Join(repoDir(), "godev", strings.TrimPrefix(pkg, "golang.org/x/telemetry/godev"))
 	default:
-		pkgDir = filepath.Join("/repo", strings.TrimPrefix(pkg, "golang.org/x/telemetry"))
+		pkgDir = filepath.Join(repoDir(), strings.TrimPrefix(pkg, "golang.org/x/telemetry"))
 	}
 	// entries of this package
 	var names []string
